@@ -35,14 +35,15 @@ type World struct {
 	// DA-inclusion marks (header hash / data commitment) that were present right before a crash restart and absent
 	// right after it
 	lostH, lostD map[string]bool
-	refused int
-	sigHook func() // armed by `during=… at=sign`: runs at the next signer call
+	refused      int
+	sigHook      func() // armed by `during=… at=sign`: runs at the next signer call
 	// chain height when the running submission body read its pending list, if a block was committed while it ran (else 0)
 	readHeight uint64
+	readSet    bool // readHeight is meaningful (the chain height the body read may be 0)
 	// both real loop goroutines came to rest (nothing pending) since the last committed block, after an outage script:
 	// a refusal now is a refusal after the DA layer has accepted everything
 	realQuietH, realQuietD bool
-	okData  int // accepting data ticks (empty script) since the last committed block / non-accepting data tick
+	okData                 int // accepting data ticks (empty script) since the last committed block / non-accepting data tick
 	// a crash may have taken the durable record of an acknowledgement with it: the restarted node then counts blocks
 	// the DA layer holds as still waiting, and is right to - it cannot know. Justified until the next accepting tick
 	// of that kind (two for data), which re-submits them.
@@ -187,8 +188,8 @@ func Run(c *hx.Ctx) {
 			during, dcls, dat := o.Has("during"), "", "after"
 			if during {
 				txs, _ := hx.UnHexList(strings.TrimPrefix(o.Str("during"), "produce:"))
-				w.readHeight = 0
-				fire := func() { w.readHeight = e.Height(); dcls = w.doProduce(txs) }
+				w.readHeight, w.readSet = 0, false
+				fire := func() { w.readHeight, w.readSet = e.Height(), true; dcls = w.doProduce(txs) }
 				if o.Str("at") == "submit" {
 					w.da.OnSubmit = func() { w.da.OnSubmit = nil; dat = "submit"; fire() }
 				} else {
@@ -206,7 +207,7 @@ func Run(c *hx.Ctx) {
 				w.da.OnSubmit, w.sigHook = nil, nil
 				if dat == "after" {
 					txs, _ := hx.UnHexList(strings.TrimPrefix(o.Str("during"), "produce:"))
-					w.readHeight = e.Height()
+					w.readHeight, w.readSet = e.Height(), true
 					dcls = w.doProduce(txs)
 				}
 			}
@@ -266,7 +267,7 @@ func Run(c *hx.Ctx) {
 				w.lostAckH = false
 			}
 			w.monitorSubmit(o.Verb, n0, left)
-			w.readHeight = 0
+			w.readHeight, w.readSet = 0, false
 		case "subhreal", "subdreal":
 			// the UNMODIFIED HeaderSubmissionLoop / DataSubmissionLoop goroutine (1 ms ticker): start it, wait until
 			// nothing of its kind is pending any more, stop it. The scripted answers are consumed tick after tick; once
@@ -666,7 +667,7 @@ func (w *World) monitorSubmit(verb string, n0, scriptLeft int) {
 	// the liveness clauses below are about the pending range the body READ: if a block was committed while it ran
 	// (`during=`), that is the range up to the chain height at its beginning
 	href := e.Height()
-	if w.readHeight != 0 {
+	if w.readSet {
 		href = w.readHeight
 	}
 	// retry until accepted: when the DA layer finally accepts everything the watermark reaches the chain height
